@@ -901,6 +901,216 @@ def gen_tls(r, n, tier):
 ALL_LEVELS = [f"d{a}{f}{p}" for a in range(4) for f in range(3) for p in range(3)]
 
 
+# ---------------------------------------------------------------- client suites (cl)
+
+def pat_bits(n, seed):
+    return [(i * 7 + seed) % 3 == 0 for i in range(n)]
+
+
+def pat_regs(n, seed):
+    return [(i * 31 + seed) % 65536 for i in range(n)]
+
+
+def pack_bits(bits):
+    out = bytearray()
+    for i in range(0, len(bits), 8):
+        b = 0
+        for k, v in enumerate(bits[i:i + 8]):
+            if v:
+                b |= 1 << k
+        out.append(b)
+    return bytes(out)
+
+
+def cl_request(r, valid=True):
+    """(step args after `<h>.<rid>.`, descriptor) for a random client request"""
+    kind = r.pick(["rc", "rd", "rh", "ri", "wc", "wr", "wC", "wR"])
+    unit = r.pick([1, 1, 0, 42, 247, 255, r.below(256)])
+    if kind in ("rc", "rd", "rh", "ri"):
+        lim = 2000 if kind in ("rc", "rd") else 125
+        if valid:
+            cnt = r.pick([1, 2, 7, 8, 9, 16, 17, lim - 1, lim]) if r.chance(1, 2) else r.rng(1, lim)
+            start = r.pick([0, 1, 65535 - cnt + 1, 65536 - cnt - 1 if cnt < 65535 else 0, r.below(65536 - cnt + 1)])
+            start = max(0, min(start, 65536 - cnt))
+        else:
+            cnt = r.pick([0, lim + 1, lim + 2, 65535, r.below(65536)])
+            start = r.pick([0, 65535, 65534, r.below(65536)])
+        return kind, unit, f"{start}.{cnt}", dict(kind=kind, start=start, count=cnt)
+    if kind == "wc":
+        idx, v = r.pick([0, 1, 65535, r.below(65536)]), r.below(2)
+        return kind, unit, f"{idx}.{v}", dict(kind=kind, idx=idx, val=v)
+    if kind == "wr":
+        idx, v = r.pick([0, 1, 65535, r.below(65536)]), r.pick([0, 1, 255, 256, 65535, r.below(65536)])
+        return kind, unit, f"{idx}.{v}", dict(kind=kind, idx=idx, val=v)
+    lim = 1968 if kind == "wC" else 123
+    if valid:
+        cnt = r.pick([1, 2, 7, 8, 9, 15, 16, 17, lim - 1, lim]) if r.chance(1, 2) else r.rng(1, lim)
+        start = max(0, min(r.pick([0, 1, 65536 - cnt, r.below(65536)]), 65536 - cnt))
+    else:
+        cnt = r.pick([0, lim + 1, lim + 2, lim + 8, lim + 9, 2008, 2009, 2040, 2041, 65535, 65536, 65537]) if kind == "wC" else \
+            r.pick([0, lim + 1, lim + 2, 126, 127, 128, 65535, 65536])
+        start = r.pick([0, 1, 65535, 65534])
+    seed = r.below(50)
+    if cnt <= 24 and r.chance(1, 2):
+        if kind == "wC":
+            bits = [r.chance(1, 2) for _ in range(cnt)]
+            spec = "".join("1" if b else "0" for b in bits) if cnt else "-"
+            vals = bits
+        else:
+            vals = [r.below(65536) for _ in range(cnt)]
+            spec = "/".join(str(v) for v in vals) if cnt else "-"
+    else:
+        spec = f"n{cnt}s{seed}"
+        vals = pat_bits(cnt, seed) if kind == "wC" else pat_regs(cnt, seed)
+    return kind, unit, f"{start}.{spec}", dict(kind=kind, start=start, count=cnt, vals=vals)
+
+
+FC_OF = {"rc": 1, "rd": 2, "rh": 3, "ri": 4, "wc": 5, "wr": 6, "wC": 15, "wR": 16}
+
+
+def good_reply(r, d):
+    fc = FC_OF[d["kind"]]
+    k = d["kind"]
+    if k in ("rc", "rd"):
+        nb = (d["count"] + 7) // 8
+        return bytes([fc, nb & 0xFF]) + r.bytes(nb)
+    if k in ("rh", "ri"):
+        return bytes([fc, (2 * d["count"]) & 0xFF]) + r.bytes(2 * d["count"])
+    if k == "wc":
+        return bytes([fc]) + be16(d["idx"]) + (b"\xff\x00" if d["val"] else b"\x00\x00")
+    if k == "wr":
+        return bytes([fc]) + be16(d["idx"]) + be16(d["val"])
+    return bytes([fc]) + be16(d["start"]) + be16(d["count"])
+
+
+def reply_variant(r, d):
+    """a reply PDU: the genuine one, an exception, or a perturbation of the genuine one"""
+    good = good_reply(r, d)
+    fc = good[0]
+    k = r.below(16)
+    if k < 5:
+        return good
+    if k == 5:
+        return bytes([fc | 0x80, r.pick([1, 2, 3, 4, 5, 6, 8, 10, 11, 0, 7, 9, 12, 255, r.below(256)])])
+    if k == 6:
+        return bytes([fc | 0x80]) + r.bytes(r.pick([0, 2, 3]))
+    if k == 7:
+        return bytes([r.pick([0, 1, 2, 3, 4, 5, 6, 15, 16, 0x80, 0x81, 0x8F, 0x90, fc ^ 0x80 ^ 1, r.below(256)])]) + good[1:]
+    if k == 8:
+        return good[:r.rng(0, max(0, len(good) - 1))]
+    if k == 9:
+        return (good + r.bytes(r.rng(1, 3)))[:253]
+    if k == 10 and len(good) >= 2:
+        g = bytearray(good)
+        g[1] = r.pick([0, 1, 255, (g[1] + 1) & 0xFF, r.below(256)])       # byte count / first echo byte
+        return bytes(g)
+    if k == 11 and d["kind"] == "wc":
+        return good[:3] + be16(r.pick([1, 0xFF, 0xFF01, 0x00FF, 0xFFFF, 0x0100, r.below(65536)]))
+    if k == 12 and len(good) >= 3:
+        g = bytearray(good)
+        i = r.rng(1, len(g) - 1)
+        g[i] ^= 1 << r.below(8)
+        return bytes(g)
+    if k == 13 and d["kind"] in ("wC", "wR"):
+        return good[:1] + be16(r.pick([65535, 0, d["start"]])) + be16(r.pick([0, 2, 65535]))
+    if k == 14:
+        return b""
+    return r.bytes(r.rng(1, 12))
+
+
+def cl_frame(framing, tx, unit, pdu):
+    return mbap(tx, unit, pdu) if framing == "t" else rtu(unit, pdu)
+
+
+def gen_cl_enc(r, n, tier):
+    """C03: what the client transmits (or refuses) for every kind of request; TCP and RTU"""
+    styles = ["R", "R", "C", "T"]
+    # boundary lattice through the public constructors
+    for kind, lim in (("rc", 2000), ("rd", 2000), ("rh", 125), ("ri", 125)):
+        for cnt in (0, 1, lim - 1, lim, lim + 1, 65535):
+            for start in {0, 1, max(0, 65535 - cnt), max(0, 65536 - cnt), 65535}:
+                for fr in ("t", "r"):
+                    yield f"cl {fr} d000 q16 m0 N,E,R0.a.{kind}.7.50.{start}.{cnt},A60"
+                yield f"cl t d000 q16 m0 N,E,Q0.a.{kind}.7.50.{start}.{cnt},A60"
+    for kind, lim in (("wC", 1968), ("wR", 123)):
+        for cnt in (0, 1, lim - 1, lim, lim + 1, lim + 8, lim + 9, 2008, 2009, 2040, 2041, 65535, 65536):
+            if kind == "wR" and cnt > 200 and cnt not in (65535, 65536):
+                continue
+            for start in {0, 1, min(65535, max(0, 65536 - cnt)), min(65535, max(0, 65537 - cnt)), 65535}:
+                for fr in ("t", "r"):
+                    yield f"cl {fr} d000 q16 m0 N,E,R0.a.{kind}.7.50.{start}.n{cnt}s3,A60"
+    for _ in range(n):
+        fr = r.pick(["t", "t", "r"])
+        steps = ["N", "E"]
+        for j in range(r.rng(1, 4)):
+            kind, unit, args, _d = cl_request(r, valid=r.chance(2, 3))
+            style = r.pick(styles)
+            steps.append(f"{style}0.r{j}.{kind}.{unit}.50.{args}")
+            steps.append("A60")
+        yield f"cl {fr} {decode_tok(r)} q16 m0 {','.join(steps)}"
+
+
+def gen_cl_resp(r, n, tier):
+    """C04: what a request completes with for every kind of reply PDU"""
+    # every function byte x short bodies, for one request of each kind
+    fixed = [("rc", "0.8", dict(kind="rc", start=0, count=8)), ("rh", "5.2", dict(kind="rh", start=5, count=2)),
+             ("wc", "9.1", dict(kind="wc", idx=9, val=1)), ("wr", "9.4660", dict(kind="wr", idx=9, val=4660)),
+             ("wC", "3.10110", dict(kind="wC", start=3, count=5, vals=[1, 0, 1, 1, 0])),
+             ("wR", "3.1/2/3", dict(kind="wR", start=3, count=3, vals=[1, 2, 3]))]
+    bodies = [b"", b"\x01", b"\x01\x55", b"\x02\x55", b"\x04\x00\x01\x00\x02", b"\x00\x09\xff\x00",
+              b"\x00\x09\x12\x34", b"\x00\x03\x00\x05", b"\x00\x03\x00\x03", b"\x00\x09\xff\x01", b"\x02"]
+    fbytes = range(256) if tier == "thorough" else list(range(0, 24)) + list(range(0x80, 0x98)) + [0xFF]
+    for kind, args, d in fixed:
+        for fb in fbytes:
+            for body in bodies:
+                yield f"cl t d000 q16 m0 N,E,R0.a.{kind}.1.50.{args},X{hx(mbap(0, 1, bytes([fb]) + body))},A60"
+        # every exception code
+        for code in range(256):
+            yield f"cl t d000 q16 m0 N,E,R0.a.{kind}.1.50.{args},X{hx(mbap(0, 1, bytes([FC_OF[kind] | 0x80, code])))},A60"
+        # genuine reply at every length offset
+        good = good_reply(r, d)
+        for ln in range(0, len(good) + 4):
+            pdu = (good + bytes(8))[:ln]
+            for fr in ("t", "r"):
+                if fr == "r" and not rtu_response_delimitable(pdu):
+                    continue
+                yield f"cl {fr} d000 q16 m0 N,E,R0.a.{kind}.1.50.{args},X{hx(cl_frame(fr, 0, 1, pdu))},A60"
+    for _ in range(n):
+        fr = r.pick(["t", "t", "t", "r"])
+        steps = ["N", "E"]
+        tx = 0
+        for j in range(r.rng(1, 3)):
+            kind, unit, args, d = cl_request(r, valid=True)
+            style = r.pick(["R", "R", "C", "T"])
+            steps.append(f"{style}0.r{j}.{kind}.{unit}.50.{args}")
+            pdu = reply_variant(r, d)
+            if fr == "r" and not rtu_response_delimitable(pdu):
+                pdu = good_reply(r, d)
+            f = cl_frame(fr, tx, unit, pdu)
+            if r.chance(1, 4) and len(f) > 2:
+                k = r.rng(1, len(f) - 1)
+                steps += [f"X{hx(f[:k])}", f"X{hx(f[k:])}"]
+            else:
+                steps.append(f"X{hx(f)}")
+            steps.append("A60")
+            tx += 1
+        yield f"cl {fr} {decode_tok(r)} q16 m0 {','.join(steps)}"
+
+
+def rtu_response_delimitable(pdu):
+    """the RTU response parser derives the same length (so the frame is 'well-framed')"""
+    if not pdu:
+        return False
+    fc = pdu[0]
+    if fc & 0x80:
+        return len(pdu) == 2
+    if fc in (1, 2, 3, 4):
+        return len(pdu) >= 2 and len(pdu) == 2 + pdu[1] and len(pdu) <= 253
+    if fc in (5, 6, 15, 16):
+        return len(pdu) == 5
+    return False
+
+
 def gen_srv_fuzz(r, n, tier):
     """C07: grammar-aware mutations of valid traffic plus raw random bytes, all decode levels,
     followed by a shutdown command (must still be honoured)"""
@@ -999,6 +1209,8 @@ def gen_dec_rdr(r, n, tier):
 
 
 SUITES = {
+    "cl_enc": gen_cl_enc,
+    "cl_resp": gen_cl_resp,
     "srv_fuzz": gen_srv_fuzz,
     "rdr_fuzz": gen_rdr_fuzz,
     "dec_srv": gen_dec_srv,
